@@ -66,6 +66,13 @@ class CSSUnknownRule(cssrule.CSSRule):
                 'CSSUnknownRule: No CSSUnknownRule found: %s' % self._valuestr(cssText),
                 error=xml.dom.InvalidModificationErr,
             )
+        elif self._normalize(self._tokenvalue(attoken)) == '@charset':
+            # would be written out as (and read back as) an @charset rule
+            self._log.error(
+                'CSSUnknownRule: @charset must be written exactly as '
+                '\'@charset "<encoding>";\': %s' % self._valuestr(cssText),
+                token=attoken,
+            )
         else:
             # for closures: must be a mutable
             new = {'nesting': [], 'wellformed': True}  # {} [] or ()
